@@ -992,13 +992,24 @@ def _t5():
         st.ghost['candidates'] = r
         return [Outcome('normal', st, r)]
 
+    def _attached(ex, st, what):
+        # C13/C17 (RFC 5246 7.2.2): a fatal alert during the abbreviated handshake must make the session non-resumable;
+        # _shutdown(False) clears `resumable` of self.session, so the cached session has to be attached by now
+        me = st.env['self']
+        cur = st.heap.get((me.oid, 'session'))
+        sess = st.env.get('session')
+        ob(ex, st, 'C13:resumption:cached-session-attached-to-the-connection-before-%s(a-failure-invalidates-it)' % what,
+           cur is not None and sess is not None and T(cur) == T(sess), kind='m2')
+
     def h_getFinished(ex, recv, args, kwargs, st, fr, node):
+        _attached(ex, st, 'the-client-Finished-is-read')
         st.ghost['finished_secret'] = args[0]
         st.ghost['finished_checked'] = VBool(z3.BoolVal(True))
         ex.havoc_call('_getFinished', st)
         return [Outcome('normal', st, fresh_opaque('getFinished'))]
 
     def h_sendFinished(ex, recv, args, kwargs, st, fr, node):
+        _attached(ex, st, 'the-server-Finished-is-sent')
         st.ghost['sent_finished_secret'] = args[0]
         ex.havoc_call('_sendFinished', st)
         return [Outcome('normal', st, fresh_opaque('sendFinished'))]
@@ -1026,7 +1037,7 @@ def _t5():
                          '_sendFinished': h_sendFinished, '_calcPendingStates': h_calcPending, 'create': h_create,
                          'bytearray': h_bytearray},
                   pure=SGC_PURE | set(SUITE_GETTERS), on_yield=exits.on_yield,
-                  on_store={'encryptThenMAC': store_etm})
+                  on_store={'encryptThenMAC': store_etm}, stable_fields={'session'})
 
     BA = UF('pure_bytearray_2', Val, Val, Val)
 
@@ -1145,8 +1156,11 @@ def _t5():
     return spec, check
 
 
+REG.note('C13', 'trusted', 'm2_server/resumption: the field `session` of the connection is not assigned by _sendFinished / _getFinished '
+                           'and what they call (direct store sites of `.session =`: TLSRecordLayer.__init__, the two handshake helpers, '
+                           'the two TLS 1.3 handshake functions, _clientResume, _serverGetClientHello; read)')
 _spec5, _check5 = _t5()
-m2s('_serverGetClientHello/resumption', ('C13',), SGC, _spec5, check=_check5, setup=sgc_setup,
+m2s('_serverGetClientHello/resumption', ('C13', 'C17'), SGC, _spec5, check=_check5, setup=sgc_setup,
         doc='server, session-ID and TLS<=1.2 ticket resumption: the abbreviated exit is reached only with a found, '
             'resumable session whose suite is still acceptable and offered, with SNI/SRP/EtM/EMS consistent, keys '
             'and ServerHello from the stored session; declines fall through to the full handshake')
